@@ -198,7 +198,8 @@ NoPayload(c) == [l \in LogSet |-> IF l = "eh_frame" /\ c.eh THEN Have(EhFrame(c)
 ShfCompressed == 2048                           \* gABI: SHF_COMPRESSED 0x800
 ChdrRec(t, size, align) == [ch_type |-> N(t), ch_reserved |-> Z, ch_size |-> N(size), ch_addralign |-> N(align)]
 DbgSec(name, flags, data) == Sec(name, N(1), N(flags), Z, data, N(Len(data)), Z, Z, N(1), Z)
-AllPlans == {"plain", "gabi", "gabi_blk", "gabi_info", "gabi_str", "gabi_badsize", "gabi_badtype", "z", "z_blk", "z_mixed", "z_badmagic", "z_badsize", "z_short"}
+AllPlans == {"plain", "gabi", "gabi_blk", "gabi_info", "gabi_str", "gabi_badsize", "gabi_smallsize", "gabi_badtype", "z", "z_blk", "z_mixed", "z_badmagic",
+             "z_badsize", "z_smallsize", "z_short"}
 BlkOf(plan) == IF plan \in {"gabi_blk", "z_blk"} THEN 16 ELSE 65535
 \* the encoding of logical section l under a plan; link records and the exception frames follow their own rules below
 EncOf(plan, l) ==
@@ -206,26 +207,27 @@ EncOf(plan, l) ==
     [] plan \in {"gabi", "gabi_blk"} -> "gabi"
     [] plan = "gabi_info" -> IF l = "info" THEN "gabi" ELSE "plain"
     [] plan = "gabi_str" -> IF l = "str" THEN "gabi" ELSE "plain"
-    [] plan = "gabi_badsize" -> IF l = "info" THEN "gabi_badsize" ELSE "gabi"
+    [] plan = "gabi_badsize" -> IF l = "info" THEN "gabi_badsize" ELSE "gabi"          \* declared size one more than the data inflate to
+    [] plan = "gabi_smallsize" -> IF l = "info" THEN "gabi_smallsize" ELSE "gabi"      \* ... one less
     [] plan = "gabi_badtype" -> IF l = "abbrev" THEN "gabi_badtype" ELSE "plain"
     [] plan \in {"z", "z_blk"} -> "z"
     \* what the GNU tools write when only some sections shrink: those are renamed, the others keep their .debug_ names
     [] plan = "z_mixed" -> IF l \in {"info", "str"} THEN "z" ELSE "plain"
     [] plan = "z_badmagic" -> IF l = "info" THEN "z_badmagic" ELSE "z"
     [] plan = "z_badsize" -> IF l = "str" THEN "z_badsize" ELSE "z"
+    [] plan = "z_smallsize" -> IF l = "str" THEN "z_smallsize" ELSE "z"
     [] plan = "z_short" -> IF l = "abbrev" THEN "z_short" ELSE "z"
 \* .eh_frame is loaded into memory and never compressed; .gnu_debugaltlink is not a .debug_ name, the legacy convention leaves it alone
 EncOfSec(plan, l) == IF l \in {"eh_frame", "altlink"} THEN "plain" ELSE EncOf(plan, l)
+Declared(enc, n) == IF enc \in {"gabi_badsize", "z_badsize"} THEN n + 1 ELSE IF enc \in {"gabi_smallsize", "z_smallsize"} THEN n - 1 ELSE n
 EncSec(l, data, enc, c, blk) ==
   LET name == PlainName(l) IN
   CASE enc = "plain" -> IF l = "eh_frame" THEN Sec(name, N(1), N(2), N(8192), data, N(Len(data)), Z, Z, N(4), Z) ELSE DbgSec(name, 0, data)
-    [] enc \in {"gabi", "gabi_badsize", "gabi_badtype"} ->
+    [] enc \in {"gabi", "gabi_badsize", "gabi_smallsize", "gabi_badtype"} ->
          DbgSec(name, ShfCompressed,
-                Ser(ChdrF(c.cls), ChdrRec(IF enc = "gabi_badtype" THEN 7 ELSE 1, IF enc = "gabi_badsize" THEN Len(data) + 1 ELSE Len(data), 1), c.cls, c.le)
-                \o Stored(data, blk))
-    [] enc \in {"z", "z_badmagic", "z_badsize"} ->
-         DbgSec(ZName(name), 0, (IF enc = "z_badmagic" THEN BadMagic ELSE ZlibMagic)
-                                \o Fix(N(IF enc = "z_badsize" THEN Len(data) + 1 ELSE Len(data)), 8, FALSE) \o Stored(data, blk))
+                Ser(ChdrF(c.cls), ChdrRec(IF enc = "gabi_badtype" THEN 7 ELSE 1, Declared(enc, Len(data)), 1), c.cls, c.le) \o Stored(data, blk))
+    [] enc \in {"z", "z_badmagic", "z_badsize", "z_smallsize"} ->
+         DbgSec(ZName(name), 0, (IF enc = "z_badmagic" THEN BadMagic ELSE ZlibMagic) \o Fix(N(Declared(enc, Len(data))), 8, FALSE) \o Stored(data, blk))
     [] enc = "z_short" -> DbgSec(ZName(name), 0, ZlibMagic \o <<0, 0, 0, 0>>)
 \* the sections of a file that carries payload `pay` under `plan`
 SecsOf(pay, plan, c) ==
@@ -370,8 +372,8 @@ Outcome == IF err # "" THEN "error:" \o err
            ELSE "loaded"
 \* declarative expectation from the configuration alone
 Followed(c) == c.home = "linked" /\ c.loader /\ c.follow
-BadKind(plan) == CASE plan = "gabi_badsize" -> "size" [] plan = "gabi_badtype" -> "type" [] plan = "z_badmagic" -> "magic"
-                   [] plan = "z_badsize" -> "zsize" [] plan = "z_short" -> "zshort" [] OTHER -> ""
+BadKind(plan) == CASE plan \in {"gabi_badsize", "gabi_smallsize"} -> "size" [] plan = "gabi_badtype" -> "type" [] plan = "z_badmagic" -> "magic"
+                   [] plan \in {"z_badsize", "z_smallsize"} -> "zsize" [] plan = "z_short" -> "zshort" [] OTHER -> ""
 Expect(c) == IF Followed(c) /\ c.dl = "badcrc" THEN "error:crc"
              ELSE IF c.home = "linked" /\ ~Followed(c) THEN "nodwarf"
              ELSE IF c.plan = "none" THEN "nodwarf"
@@ -395,9 +397,9 @@ Invariance ==
      /\ (~SupLoaded => got.sup = Got0.sup)
 OutcomeMatches == pc = "done" => Outcome = Expect(cfg)
 BadCrcRejected == pc = "done" => ((err = "crc") <=> (Followed(cfg) /\ cfg.dl = "badcrc"))
-BadSizeRejected == pc = "done" => /\ (cfg.plan = "gabi_badsize" /\ Expect(cfg) # "nodwarf" => err = "size")
-                                  /\ (cfg.plan = "z_badsize" /\ Expect(cfg) # "nodwarf" => err = "zsize")
-                                  /\ (err \in {"size", "zsize"} => cfg.plan \in {"gabi_badsize", "z_badsize"})
+BadSizeRejected == pc = "done" => /\ (cfg.plan \in {"gabi_badsize", "gabi_smallsize"} /\ Expect(cfg) # "nodwarf" => err = "size")
+                                  /\ (cfg.plan \in {"z_badsize", "z_smallsize"} /\ Expect(cfg) # "nodwarf" => err = "zsize")
+                                  /\ (err \in {"size", "zsize"} => cfg.plan \in {"gabi_badsize", "gabi_smallsize", "z_badsize", "z_smallsize"})
 BadFramingRejected == pc = "done" => /\ (cfg.plan \in {"z_badmagic", "z_short", "gabi_badtype"} /\ Expect(cfg) # "nodwarf" => err = BadKind(cfg.plan))
                                      /\ (err \in {"magic", "zshort", "type", "short", "nofile"} => err = BadKind(cfg.plan))
 \* the names read back from the image's section-name table decide presence exactly as the writer meant it
